@@ -365,9 +365,11 @@ func ParseNameAddrPVal(h HdrT, buf []byte, offs int, pfrom *PFromBody) (int, Err
 				if pfrom.state == fbParamName {
 					pfrom.state = fbNewParam
 					pfrom.pend = i
+					setFromParamVal(buf, pfrom) // param. without value
 				} else if pfrom.state == fbPossibleParamName {
 					pfrom.state = fbNewPossibleParam
 					pfrom.pend = i
+					setFromParamVal(buf, pfrom) // param. without value
 				}
 			default:
 				if pfrom.state == fbNewParam {
@@ -398,6 +400,7 @@ func ParseNameAddrPVal(h HdrT, buf []byte, offs int, pfrom *PFromBody) (int, Err
 				} else {
 					pfrom.state = fbNewPossibleParam
 				}
+				setFromParamVal(buf, pfrom) // param. without value
 			case ',':
 				if multipleValsOk(h) {
 					goto moreValues
@@ -561,8 +564,13 @@ endOfHdr:
 		// 1 token => it's the uri (e.g. sip:foo@bar)
 		pfrom.URI.Set(s, i)
 		pfrom.V.Extend(i)
-	case fbNewParam, fbParamNameEnd, fbNewPossibleParam,
-		fbPossibleParamNameEnd, fbParamName, fbPossibleParamName:
+	case fbParamName, fbPossibleParamName:
+		pfrom.pend = i
+		fallthrough
+	case fbParamNameEnd, fbPossibleParamNameEnd:
+		setFromParamVal(buf, pfrom) // param. without value (e.g. ";lr")
+		fallthrough
+	case fbNewParam, fbNewPossibleParam:
 		// uri or possible uri already found, make sure the params end is set
 		//pfrom.Params.Set(int(pfrom.Params.Offs), i)
 		if pfrom.Params.Offs != 0 {
